@@ -15,7 +15,7 @@ PROPERTY = "C12"
 LEVEL = "exploration"
 RULE = ("LHS: 1..4 parameters x N=1..4 with every pair of column permutations (<=2 columns; otherwise every single permutation "
         "shared by the columns and every rotation) x uniform draws all-0 / all-.5 / all-(1-2^-53) and every <=2 cells deviating; "
-        "N=5..8 with seeded permutations; Halton: N<=64 over all boxes plus every N = b^e-1, b^e, b^e+1 <= 1100 (thorough 60000) for the six bases, 1..6 parameters; grid: k=2..5 for 1..3 parameters, k=6..60 (thorough 120) for one parameter over 11 boxes, k=6..14 for two; every deterministic generator object used repeatedly (returned designs overwritten by the caller, bounds changed in place); random: counts 0..5 with "
+        "N=5..8,16 with seeded permutations and every N=1..260 for 1-3 parameters; Halton: N<=64 over all boxes plus every N = b^e-1, b^e, b^e+1 <= 1100 (thorough 60000) for the six bases, 1..6 parameters; grid: k=2..5 for 1..3 parameters, k=6..60 (thorough 120) for one parameter over 11 boxes, k=6..14 for two; every deterministic generator object used repeatedly (returned designs overwritten by the caller, bounds changed in place); random: counts 0..5 with "
         "draws at the extremes; boxes from the common list. Non-trivial = N>=2 or >=2 parameters; distinct = distinct configurations.")
 ASSUMPTIONS = ["numpy's RandomState.rand/permutation are replaced by scripted answers with the same contract "
                "(values in [0,1), a permutation of range(N))",
@@ -42,12 +42,14 @@ class ScriptedState:
 
     def permutation(self, x):
         import numpy as np
-        n = len(list(x))
+        # numpy's contract: an int means arange(x); a sequence is returned permuted
+        items = np.arange(x) if isinstance(x, (int, np.integer)) else np.asarray(list(x))
+        n = len(items)
         self.log.append(("permutation", n))
         p = self.perms[self.k % len(self.perms)]
         self.k += 1
         assert len(p) == n
-        return np.array(p)
+        return items[np.array(p, dtype=int)]
 
 
 class NPProxy:
@@ -357,6 +359,11 @@ def _shard(shard, col: Collector):
                     for s in range(seed * 4, seed * 4 + 4):
                         rec("lhs_seeded", {"nparams": nparams, "shift": shift, "N": N, "seed": s},
                             check_lhs_seeded(nparams, shift, N, s))
+        # every sample count up to 260 (interval arithmetic such as 1/N accumulates differently for each N)
+        for N in range(1, 261):
+            for nparams, shift in ((1, 0), (2, 3), (3, 5)):
+                rec("lhs_seeded", {"nparams": nparams, "shift": shift % len(BOXES), "N": N, "seed": seed * 4},
+                    check_lhs_seeded(nparams, shift % len(BOXES), N, seed * 4))
         col.sample({"kind": "lhs-seeded", "nparams": 3, "N": 8, "seed": seed * 4}, 1)
     elif kind == "halton":
         nparams = shard[1]
